@@ -73,32 +73,36 @@ func runC10(c *Ctx) {
 	for _, f := range []*ssa.Function{mAdd, lAdd, mClose} {
 		c.Saw("function " + shortFn(f))
 	}
-	c10Accumulators(c, mAdd, map[string]accSpec{
-		"Requests":        {"sum", "1", ""},
-		"StatusCodes":     {"mapsum", "strconv.Itoa(r.Code)", ""},
-		"BytesOut.Total":  {"sum", "r.BytesOut", ""},
-		"BytesIn.Total":   {"sum", "r.BytesIn", ""},
-		"Earliest":        {"min", "r.Timestamp", ""},
-		"Latest":          {"max", "r.Timestamp", ""},
-		"End":             {"max", "(*lib.Result).End(r)", ""},
-		"success":         {"sum", "1", "success"},
-		"errors":          {"set", "r.Error", "error"},
-		"Errors":          {"set", "r.Error", "error"},
-		"call:Latencies":  {"delegate", "(*lib.LatencyMetrics).Add(r.Latency)", ""},
-		"call:Histogram":  {"delegate", "(*lib.Histogram).Add(r)", "histogram"},
-		"call:init":       {"delegate", "(*lib.Metrics).init()", ""},
-	})
-	c10Accumulators(c, lAdd, map[string]accSpec{
-		"Total":          {"sum", "latency", ""},
-		"Max":            {"max", "latency", ""},
-		"Min":            {"min", "latency", ""},
-		"call:estimator": {"delegate", "estimator.Add(latency)", ""},
-		"call:init":      {"delegate", "(*lib.LatencyMetrics).init()", ""},
-	})
+	c10Accumulators(c, mAdd, c10MetricsTable)
+	c10Accumulators(c, lAdd, c10LatencyTable)
 	c10ClosePure(c, mAdd, mClose)
 	c10CloseDivisions(c, mClose)
 	c10SuccessRange(c)
 	c10Report(c)
+}
+
+var c10MetricsTable = map[string]accSpec{
+	"Requests":       {"sum", "1", ""},
+	"StatusCodes":    {"mapsum", "strconv.Itoa(r.Code)", ""},
+	"BytesOut.Total": {"sum", "r.BytesOut", ""},
+	"BytesIn.Total":  {"sum", "r.BytesIn", ""},
+	"Earliest":       {"min", "r.Timestamp", ""},
+	"Latest":         {"max", "r.Timestamp", ""},
+	"End":            {"max", "(*lib.Result).End(r)", ""},
+	"success":        {"sum", "1", "success"},
+	"errors":         {"set", "r.Error", "error"},
+	"Errors":         {"set", "r.Error", "error"},
+	"call:Latencies": {"delegate", "(*lib.LatencyMetrics).Add(r.Latency)", ""},
+	"call:Histogram": {"delegate", "(*lib.Histogram).Add(r)", "histogram"},
+	"call:init":      {"delegate", "(*lib.Metrics).init()", ""},
+}
+
+var c10LatencyTable = map[string]accSpec{
+	"Total":          {"sum", "latency", ""},
+	"Max":            {"max", "latency", ""},
+	"Min":            {"min", "latency", ""},
+	"call:estimator": {"delegate", "estimator.Add(latency)", ""},
+	"call:init":      {"delegate", "(*lib.LatencyMetrics).init()", ""},
 }
 
 // c10Accumulators classifies every effect of an Add method.
